@@ -243,6 +243,6 @@ def run_case(case, rec, ctx):
 
 META = {
     "technique": "runtime contracts on create_spin_range / formulate_helicity_rotation and differential observation of unaligned vs axis-angle vs DPD(1,2,3) builds of the same single-topology reaction through the full evaluation pipeline",
-    "level_text": "create_spin_range is judged on the exhaustive grid s = 0..10 (half-integer steps) x both flags and wherever any workload calls it; formulate_helicity_rotation's index pool is judged on every call made while formulating aligned models; every single-topology fixture (and synthetic 3-/4-body reactions with final-state spins up to 5/2 and massless particles) is built unaligned, with axis-angle and with all three DPD reference subsystems and the intensities are compared at 24 events with shared random parameters; an exception while formulating or evaluating an aligned model is a violation.",
+    "level_text": "create_spin_range is judged on the exhaustive grid s = 0..10 (half-integer steps) x both flags and wherever any workload calls it; formulate_helicity_rotation's index pool is judged on every call made while formulating aligned models; every single-topology fixture (and synthetic 3-/4-body reactions with final-state spins up to 5/2 and massless particles) is built unaligned, with axis-angle and with all three DPD reference subsystems and the intensities are compared at 24 events with shared random parameters; an exception while formulating or evaluating an aligned model is a violation. create_spin_range is also driven through call histories (all flag orders, caller clears the returned list, 200 random calls), formulate_rotation_chain is judged per rotated particle, and half of the synthetic cases formulate an aligned photon model first.",
     "level_note": "Equality to 1e-8 of max(I); axis-angle models whose alignment sum exceeds the harness budget are skipped (counted in the evidence).",
 }
